@@ -170,6 +170,18 @@ func CodecCatalogue() []*Request {
 	}, "Series", true))
 	// every codec feature on messages declared inside other messages (annotated, plain and field-less parents)
 	out = append(out, C14NestedCatalogue("quick")...)
+	// root map whose values are wrappers of SCALAR / enum lists (combined form): nil inner lists, enums with a codec
+	{
+		st := &Enum{Name: "Tone", Values: []*EnumValue{{Name: "TONE_UNSPECIFIED", Number: 0}, {Name: "TONE_LOW", Number: 1, EnumValue: Str("low")}, {Name: "TONE_HIGH", Number: 2}}}
+		add(featureReq("cxrootcombo", []*Enum{st}, []*Message{
+			M("StrList", F("b", 1, "string", Rep(), Unwrap())), M("ToneList", F("tones", 1, "", EnumT(q("cxrootcombo", "Tone")), Rep(), Unwrap())),
+			M("NumList", F("ns", 1, "int64", Rep(), Unwrap()), F("note", 2, "string")),
+			M("TagCombo", F("by_k", 1, "", Msg(q("cxrootcombo", "StrList")), MapOf("string"), Unwrap())),
+			M("ToneCombo", F("by_k", 1, "", Msg(q("cxrootcombo", "ToneList")), MapOf("string"), Unwrap())),
+			M("NumCombo", F("by_k", 1, "", Msg(q("cxrootcombo", "NumList")), MapOf("string"), Unwrap())),
+			M("Tones", F("tones", 1, "", EnumT(q("cxrootcombo", "Tone")), Rep(), Unwrap())),
+		}, "TagCombo", "ToneCombo", "NumCombo", "Tones"))
+	}
 	// root unwrap forms not in the feature catalogue
 	add(featureReq("cxroot", nil, []*Message{
 		M("Bar", F("t", 1, "int64"), F("sym", 2, "string")),
